@@ -257,6 +257,11 @@ func Execute(w *World, tape *simrt.Tape, gold []*Golden, onFatal func(int, strin
 				ok = false
 			}
 		}
+		if !ok && !usesAllOf(&w.Objects[i]) && !usesAllOf(&w.Objects[d]) {
+			// allOf is the rule whose compilation completes types in place; without
+			// it nothing is written into a registered type, accepted or not
+			ok = gold[i] != nil && gold[d] != nil
+		}
 		if !ok {
 			for o := range w.Objects {
 				if o == d || w.Objects[o].ShareWith-1 == d {
@@ -378,6 +383,18 @@ func (x *executor) checkLin(res *RunResult) {
 			res.LinUnknown++
 		}
 	}
+}
+
+func usesAllOf(p *Project) bool {
+	if strings.Contains(p.Text, "allOf") {
+		return true
+	}
+	for _, t := range p.Types {
+		if strings.Contains(t.Text, "allOf") {
+			return true
+		}
+	}
+	return false
 }
 
 func fatalExit(msg string) {
